@@ -1,5 +1,306 @@
-//! C12 at the zkAbacus level (establish / pay proofs through the challenge-recorder hook).
-use crate::engine::CheckDef;
+//! C12 at the zkAbacus level: no field of an establish or pay proof other than a response scalar,
+//! no public value, key, parameter set or context byte can change without changing the challenge
+//! the merchant derives (read through the challenge-recorder hook).
+
+use super::c08::{change_atom, replaceable, AtomChange};
+use super::common::*;
+use crate::engine::wire::{self, Image};
+use crate::engine::{enum_check, CheckDef, Ctx, Fail, Rec, R};
+use crate::model::proto;
+use bls12_381::Scalar;
+use serde::{Deserialize, Serialize};
+use serde_json::json;
+use std::collections::HashMap;
+use std::sync::{Arc, Mutex, OnceLock};
+use zkabacus_crypto::{Context, EstablishProof, Nonce, PayProof};
+use zkchannels_crypto::proofs::verif_hooks::drain;
+
+#[derive(Clone, Debug, Serialize, Deserialize, Hash, PartialEq, Eq)]
+pub enum ZKind {
+    /// prover-side and verifier-side challenges of an honest run agree (establish and pay)
+    Agreement,
+    EstAtom(usize),
+    PayAtom(usize),
+    /// 0 cid (one bit), 1 cb+1, 2 cb-1, 3 mb+1, 4 mb-1, 5 other merchant key
+    EstPublic(u8),
+    /// 0 nonce+1, 1 fresh nonce, 2 other merchant key, 3 other range parameters
+    PayPublic(u8),
+    /// byte `pos` of a context input of length `len` flipped (len == pos: one byte appended)
+    CtxByte { len: u8, pos: u8, pay: bool },
+}
+
+#[derive(Clone, Debug, Serialize, Deserialize)]
+pub struct Case {
+    seed: u64,
+    kind: ZKind,
+}
+
+pub struct Honest {
+    pub m: Arc<proto::Merchant>,
+    pub cid: zkabacus_crypto::ChannelId,
+    pub ctx_input: Vec<u8>,
+    pub cb: u64,
+    pub mb: u64,
+    pub amt: i64,
+    pub est_img: Image,
+    pub est_prover_ch: Scalar,
+    pub pay_img: Image,
+    pub pay_prover_ch: Scalar,
+    pub nonce_bytes: Vec<u8>,
+}
+
+pub fn ctx_input(seed: u64, len: usize) -> Vec<u8> {
+    use rand_core::RngCore;
+    let mut v = vec![0u8; len];
+    rng(seed ^ 0xc7).fill_bytes(&mut v);
+    v
+}
+
+pub fn honest(seed: u64) -> Arc<Honest> {
+    static C: OnceLock<Mutex<HashMap<u64, Arc<Honest>>>> = OnceLock::new();
+    let c = C.get_or_init(|| Mutex::new(HashMap::new()));
+    if let Some(h) = c.lock().unwrap().get(&seed) {
+        return h.clone();
+    }
+    let m = proto::merchant(seed % 2);
+    let cid = proto::channel_id(&m, seed);
+    let input = ctx_input(seed, (seed % 60) as usize + 4);
+    let ctx = Context::new(&input);
+    let (cb, mb) = (100 + seed % 900, 50 + (seed >> 4) % 500);
+    let amt = (seed % 9) as i64 - 4;
+    let _ = drain();
+    let (req, proof) = zkabacus_crypto::customer::Requested::new(&mut rng(seed ^ 0xe1), &m.cust, cid, proto::mbal(mb), proto::cbal(cb), &ctx);
+    let est_prover_ch = drain().last().expect("prover challenge").1;
+    let est_img = Image::must(&proof);
+    let (closing, vbs) = m.cfg.initialize(&mut rng(seed ^ 0xe2), &cid, proto::cbal(cb), proto::mbal(mb), proof, &ctx).expect("honest establish");
+    let inactive = req.complete(closing, &m.cust).ok().expect("complete");
+    let ready = inactive.activate(m.cfg.activate(&mut rng(seed ^ 0xe3), vbs), &m.cust).ok().expect("activate");
+    let _ = drain();
+    let (_started, msg) = ready.start(&mut rng(seed ^ 0xa1), proto::amount(amt), &ctx, &m.cust).ok().expect("start");
+    let pay_prover_ch = drain().last().expect("prover challenge").1;
+    let h = Arc::new(Honest {
+        m,
+        cid,
+        ctx_input: input,
+        cb,
+        mb,
+        amt,
+        est_img,
+        est_prover_ch,
+        pay_img: Image::must(&msg.pay_proof),
+        pay_prover_ch,
+        nonce_bytes: wire::enc(&msg.nonce),
+    });
+    c.lock().unwrap().insert(seed, h.clone());
+    h
+}
+
+/// Challenge the merchant derives for an establish proof under the given verification tuple.
+fn est_challenge(m: &proto::Merchant, cid: &zkabacus_crypto::ChannelId, cb: u64, mb: u64, proof_bytes: &[u8], ctx: &Context) -> Option<(Scalar, bool)> {
+    let proof: EstablishProof = wire::dec(proof_bytes).ok()?;
+    let _ = drain();
+    let acc = m.cfg.initialize(&mut rng(1), cid, proto::cbal(cb), proto::mbal(mb), proof, ctx).is_some();
+    drain().last().map(|(_, c)| (*c, acc))
+}
+
+fn pay_challenge(m: &proto::Merchant, amt: i64, nonce_bytes: &[u8], proof_bytes: &[u8], ctx: &Context) -> Option<(Scalar, bool)> {
+    let proof: PayProof = wire::dec(proof_bytes).ok()?;
+    let nonce: Nonce = wire::dec(nonce_bytes).ok()?;
+    let _ = drain();
+    let acc = m.cfg.allow_payment(&mut rng(1), proto::amount(amt), &nonce, proof, ctx).is_some();
+    drain().last().map(|(_, c)| (*c, acc))
+}
+
+fn is_response(field: &str) -> bool {
+    field == "blinding_factor_response_scalar" || field == "message_response_scalars"
+}
+
+fn oracle(c: &Case, rec: &Rec) -> R {
+    let h = honest(c.seed);
+    let ctx = Context::new(&h.ctx_input);
+    let differ = |what: String, base: Scalar, got: Option<(Scalar, bool)>, sig: String| -> R {
+        let Some((ch, accepted)) = got else {
+            rec.class("variant-refused-by-decoder");
+            return Ok(());
+        };
+        rec.eval(1);
+        if ch == base {
+            return Err(Fail::new(sig, format!("{} leaves the challenge the merchant derives unchanged (proof {} afterwards)", what, if accepted { "still accepted" } else { "rejected" })).obs("challenge unchanged", "challenge changes"));
+        }
+        ensure!(!accepted, "C12/changed-input-still-accepted", "{}: challenge changed but the proof was still accepted", what);
+        Ok(())
+    };
+    match &c.kind {
+        ZKind::Agreement => {
+            let (ve, acc_e) = est_challenge(&h.m, &h.cid, h.cb, h.mb, &h.est_img.bytes, &ctx).ok_or_else(|| Fail::new("harness/honest-proof-undecodable", "establish"))?;
+            let (vp, acc_p) = pay_challenge(&h.m, h.amt, &h.nonce_bytes, &h.pay_img.bytes, &ctx).ok_or_else(|| Fail::new("harness/honest-proof-undecodable", "pay"))?;
+            rec.eval(2);
+            ensure!(acc_e && acc_p, "C12/honest-proof-rejected", "honest proofs rejected (establish {}, pay {})", acc_e, acc_p);
+            ensure!(ve == h.est_prover_ch, "C12/EstablishProof/prover-verifier-challenge-differ", "customer and merchant derive different challenges for an honest establish proof");
+            ensure!(vp == h.pay_prover_ch, "C12/PayProof/prover-verifier-challenge-differ", "customer and merchant derive different challenges for an honest pay proof");
+            rec.class("agreement");
+            rec.nontrivial(("agreement", c.seed));
+        }
+        ZKind::EstAtom(i) | ZKind::PayAtom(i) => {
+            let pay = matches!(c.kind, ZKind::PayAtom(_));
+            let img = if pay { &h.pay_img } else { &h.est_img };
+            let idxs = replaceable(img);
+            let ai = idxs[*i % idxs.len()];
+            let a = &img.atoms[ai];
+            let Some(bytes) = change_atom(img, ai, &AtomChange::Shift(ScSpec::Rand(c.seed ^ (*i as u64) << 8))) else { return Ok(()) };
+            let base = if pay { h.pay_prover_ch } else { h.est_prover_ch };
+            let got = if pay { pay_challenge(&h.m, h.amt, &h.nonce_bytes, &bytes, &ctx) } else { est_challenge(&h.m, &h.cid, h.cb, h.mb, &bytes, &ctx) };
+            let ty = if pay { "PayProof" } else { "EstablishProof" };
+            if is_response(&a.field) {
+                if let Some((ch, acc)) = got {
+                    rec.eval(1);
+                    ensure!(!acc, format!("C12/{}/altered-response-accepted", ty), "a proof with an altered response scalar was accepted");
+                    rec.class(if ch == base { "response-atom/not-hashed(no-claim)" } else { "response-atom/hashed(no-claim)" });
+                }
+                return Ok(());
+            }
+            let name = if a.field.is_empty() { a.path.clone() } else { a.field.clone() };
+            let short = a.path.split('.').filter(|s| !s.chars().all(|ch| ch.is_ascii_digit())).collect::<Vec<_>>().join(".");
+            differ(format!("replacing atom '{}' of an honest {}", a.path, ty), base, got, format!("C12/{}/unhashed-atom/{}", ty, short))?;
+            let _ = name;
+            rec.class(&format!("{}/atom", ty));
+            rec.nontrivial((ty, a.path.clone(), c.seed));
+            rec.sample(&format!("{}/atom", ty), || json!({"proof": ty, "atom": a.path, "kind": format!("{:?}", a.kind)}));
+        }
+        ZKind::EstPublic(w) => {
+            let mut cidb = h.cid.to_bytes();
+            let (mut cb, mut mb, mut m) = (h.cb, h.mb, h.m.clone());
+            let label = match w % 6 {
+                0 => {
+                    cidb[(c.seed % 31) as usize] ^= 1 << (c.seed % 8);
+                    "channel-id-bit"
+                }
+                1 => {
+                    cb += 1;
+                    "customer-balance+1"
+                }
+                2 => {
+                    cb -= 1;
+                    "customer-balance-1"
+                }
+                3 => {
+                    mb += 1;
+                    "merchant-balance+1"
+                }
+                4 => {
+                    mb -= 1;
+                    "merchant-balance-1"
+                }
+                _ => {
+                    m = proto::merchant(h.m.seed + 1);
+                    "merchant-key"
+                }
+            };
+            let cid: zkabacus_crypto::ChannelId = wire::dec(&cidb).unwrap();
+            differ(format!("changing the public value {}", label), h.est_prover_ch, est_challenge(&m, &cid, cb, mb, &h.est_img.bytes, &ctx), format!("C12/EstablishProof/public-value-not-bound/{}", label))?;
+            rec.class(&format!("establish-public/{}", label));
+            rec.nontrivial((label, c.seed));
+        }
+        ZKind::PayPublic(w) => {
+            let mut nb = h.nonce_bytes.clone();
+            let mut m = h.m.clone();
+            let label = match w % 4 {
+                0 => {
+                    nb = (wire::sc(&nb).unwrap() + Scalar::one()).to_bytes().to_vec();
+                    "nonce+1"
+                }
+                1 => {
+                    nb = rand_scalar(c.seed).to_bytes().to_vec();
+                    "fresh-nonce"
+                }
+                2 => {
+                    m = proto::merchant_variant(h.m.seed, 0);
+                    "merchant-key"
+                }
+                _ => {
+                    m = proto::merchant_variant(h.m.seed, 2);
+                    "range-parameters"
+                }
+            };
+            differ(format!("changing {}", label), h.pay_prover_ch, pay_challenge(&m, h.amt, &nb, &h.pay_img.bytes, &ctx), format!("C12/PayProof/public-value-not-bound/{}", label))?;
+            rec.class(&format!("pay-public/{}", label));
+            rec.nontrivial((label, c.seed));
+        }
+        ZKind::CtxByte { len, pos, pay } => {
+            // an honest proof for a context input of the requested length
+            let len = *len as usize;
+            let input = ctx_input(c.seed ^ 0x99, len);
+            let ctx0 = Context::new(&input);
+            let mut input2 = input.clone();
+            if (*pos as usize) < len {
+                input2[*pos as usize] ^= 1 << (c.seed % 8);
+            } else {
+                input2.push((c.seed >> 8) as u8);
+            }
+            let ctx1 = Context::new(&input2);
+            ensure!(ctx0.as_bytes() != ctx1.as_bytes(), "C12/context-digest-ignores-byte", "Context::new gives the same digest after changing byte {} of a {}-byte input", pos, len);
+            // the challenge under the changed context differs (same proof bytes: only the context changes)
+            let (b0, b1) = if *pay {
+                (pay_challenge(&h.m, h.amt, &h.nonce_bytes, &h.pay_img.bytes, &ctx0), pay_challenge(&h.m, h.amt, &h.nonce_bytes, &h.pay_img.bytes, &ctx1))
+            } else {
+                (est_challenge(&h.m, &h.cid, h.cb, h.mb, &h.est_img.bytes, &ctx0), est_challenge(&h.m, &h.cid, h.cb, h.mb, &h.est_img.bytes, &ctx1))
+            };
+            let (Some((c0, _)), Some((c1, _))) = (b0, b1) else { return Err(Fail::new("harness/honest-proof-undecodable", "ctx")) };
+            rec.eval(1);
+            ensure!(c0 != c1, format!("C12/{}/context-byte-not-bound", if *pay { "PayProof" } else { "EstablishProof" }), "changing byte {} of a {}-byte context input leaves the merchant's challenge unchanged", pos, len);
+            rec.class(&format!("context-byte/{}", if *pay { "pay" } else { "establish" }));
+            rec.nontrivial((len, *pos, *pay, c.seed));
+        }
+    }
+    Ok(())
+}
+
+fn gen(ctx: &Ctx) -> Vec<Case> {
+    let mut out = Vec::new();
+    let est_seeds = ctx.tier.pick(12u64, 60);
+    let pay_seeds = ctx.tier.pick(2u64, 40);
+    let base = ctx.seed.wrapping_mul(7919);
+    for s in 0..est_seeds {
+        let seed = base + s;
+        out.push(Case { seed, kind: ZKind::Agreement });
+        let n = replaceable(&honest(seed).est_img).len();
+        for i in 0..n {
+            out.push(Case { seed, kind: ZKind::EstAtom(i) });
+        }
+        for w in 0..6 {
+            out.push(Case { seed, kind: ZKind::EstPublic(w) });
+        }
+    }
+    for s in 0..pay_seeds {
+        let seed = base + s;
+        let n = replaceable(&honest(seed).pay_img).len();
+        for i in 0..n {
+            out.push(Case { seed, kind: ZKind::PayAtom(i) });
+        }
+        for w in 0..4 {
+            out.push(Case { seed, kind: ZKind::PayPublic(w) });
+        }
+    }
+    // every byte position of context inputs of several lengths
+    let lens: Vec<u8> = ctx.tier.pick(vec![0u8, 1, 31, 32, 33, 64], vec![0, 1, 2, 7, 31, 32, 33, 63, 64, 65, 96]);
+    for (k, len) in lens.iter().enumerate() {
+        for pos in 0..=*len {
+            out.push(Case { seed: base + (k as u64 % est_seeds), kind: ZKind::CtxByte { len: *len, pos, pay: false } });
+        }
+    }
+    for pos in [0u8, 15, 31, 32] {
+        out.push(Case { seed: base, kind: ZKind::CtxByte { len: 32, pos, pay: true } });
+    }
+    out
+}
+
 pub fn checks() -> Vec<CheckDef> {
-    vec![]
+    vec![enum_check(
+        "zkabacus-atoms",
+        "enumerated over honest establish proofs (12 quick / 60 thorough) and pay proofs (2 / 40): every replaceable atom of the traced wire form (establish: 4 revealed commitment scalars + 2x(C,T) and the response scalars; pay: 2 revealed scalars + token proof (s1',s2',C,T) + lock proof (C,T) + 2x(C,T) + 18 digit proofs x (s1',s2',C,T) and the response scalars) replaced by a different valid value; every public value (channel id bit, balances +-1, nonce +1 / fresh), the merchant key, the range parameters; every byte position of context inputs of lengths {0,1,31,32,33,64,...}; oracle (challenge read through the recorder hook inside initialize / allow_payment): prover's challenge == merchant's challenge on honest runs; any non-response change => the merchant's challenge differs (and the proof is rejected); response atoms carry no claim and are reported separately; exhaustive over atoms of each instance",
+        &["EstablishProof/atom", "PayProof/atom", "agreement", "context-byte/establish"],
+        true,
+        gen,
+        oracle,
+    )]
 }
